@@ -54,6 +54,7 @@ func ResetCaches() {
 	L2.Trace = nil
 	DIO.Fault = nil
 	DIO.Trace = nil
+	DIO.OnWrite = nil
 	DIO.Calls = 0
 	cache.VerifResetGlobals()
 	common.VerifResetOnIdle()
